@@ -205,7 +205,55 @@ func scanComplete(fn *ssa.Function, field *types.Var) (bool, string) {
 		}
 	})
 	if phi == nil {
-		return false, "no index variable of the form i := 0; i++ found"
+		// library form: i := slices.Index(S, u); miss exactly when i == -1
+		var idx *ssa.Call
+		allInstrs(fn, func(i ssa.Instruction) {
+			if cl, ok := i.(*ssa.Call); ok && commonName(&cl.Call) == "slices.Index" && len(cl.Call.Args) == 2 {
+				if _, ok := loadedField(cl.Call.Args[0], field); ok {
+					if _, isP := strip(cl.Call.Args[1]).(*ssa.Parameter); isP {
+						idx = cl
+					}
+				}
+			}
+		})
+		if idx == nil {
+			return false, "no index variable of the form i := 0; i++ (or slices.Index) found"
+		}
+		fs := computeFacts(fn)
+		isIdx := func(v ssa.Value) bool { return v == ssa.Value(idx) }
+		neg := func(v ssa.Value) bool { k, ok := constInt(v); return ok && k == -1 }
+		zero := func(v ssa.Value) bool { k, ok := constInt(v); return ok && k == 0 }
+		found := func(facts []Fact) bool {
+			return anyFact(facts, func(f Fact) bool { return cmpFact(f, token.NEQ, isIdx, neg) || cmpFact(f, token.GEQ, isIdx, zero) || cmpFact(f, token.GTR, isIdx, neg) })
+		}
+		missing := func(facts []Fact) bool {
+			return anyFact(facts, func(f Fact) bool { return cmpFact(f, token.EQL, isIdx, neg) || cmpFact(f, token.LSS, isIdx, zero) })
+		}
+		okAll := true
+		why := ""
+		allInstrs(fn, func(i ssa.Instruction) {
+			st, ok := i.(*ssa.Store)
+			if !ok {
+				return
+			}
+			if _, ok := addrOfField(st.Addr, field); ok && !found(fs.At(st.Block())) {
+				okAll, why = false, "the element is removed without the fact that slices.Index found it"
+			}
+		})
+		var shrinks []ssa.Instruction
+		allInstrs(fn, func(i ssa.Instruction) {
+			if st, ok := i.(*ssa.Store); ok {
+				if _, ok := addrOfField(st.Addr, field); ok {
+					shrinks = append(shrinks, i)
+				}
+			}
+		})
+		for _, r := range returnsOf(fn) {
+			if blockReachesAvoiding(fn.Blocks[0], r, shrinks) && !missing(fs.At(r.Block())) {
+				okAll, why = false, "a return that removed nothing is not under slices.Index(...) == -1"
+			}
+		}
+		return okAll, why
 	}
 	isLen := func(v ssa.Value) bool {
 		c, ok := v.(*ssa.Call)
@@ -594,6 +642,22 @@ func derivesFromField(v ssa.Value, f *types.Var, d int) bool {
 				if derivesFromField(a, f, d+1) {
 					return true
 				}
+			}
+		}
+		// a module helper returning (a copy of) the field
+		if cal := x.Call.StaticCallee(); cal != nil && inModule(cal) && len(cal.Blocks) > 0 {
+			for _, r := range returnsOf(cal) {
+				for _, rv := range returnValues(r) {
+					if derivesFromField(rv, f, d+2) {
+						return true
+					}
+				}
+			}
+		}
+	case *ssa.Alloc:
+		for _, r := range *x.Referrers() {
+			if st, ok := r.(*ssa.Store); ok && st.Addr == ssa.Value(x) && derivesFromField(st.Val, f, d+1) {
+				return true
 			}
 		}
 	}
